@@ -248,6 +248,22 @@ def run(F, ck, tier):
                             todo.append(d_[1])
             used = [b for b in binds if b['id'] in reach]
             okk = len(binds) >= 2 and len(used) >= 2
+            if len(binds) == 1 and used:
+                # `for pair in ..`: both components must be projected (pair.0 and pair.1, or a destructuring let of the pair)
+                proj = set()
+                exprs_ = [gets[0]['a'][0]] + [D10.defs[i][1] for i in reach if i in D10.defs and D10.defs[i][0] in ('let', 'part') and isinstance(D10.defs[i][1], dict)]
+                for ex_ in exprs_:
+                    for y in walk(ex_):
+                        if y.get('k') == 'Field' and y.get('n') in ('0', '1'):
+                            b_ = y['e']
+                            while b_.get('k') in ('Ref', 'Un'):
+                                b_ = b_['e']
+                            if b_.get('k') == 'Local' and b_['id'] == binds[0]['id']:
+                                proj.add(y['n'])
+                comps = [i for i in reach if i in D10.defs and D10.defs[i][0] == 'part' and isinstance(D10.defs[i][1], dict) and any(y.get('k') == 'Local' and y['id'] == binds[0]['id'] for y in walk(D10.defs[i][1]))]
+                okk = proj == {'0', '1'} or len(comps) >= 2
+                if okk:
+                    used = [binds[0], binds[0]]
             why10 = 'the index key uses both components of the lookup (%s)' % ', '.join(b['n'] for b in used) if okk else \
                 'set_lookup_wires looks the table index up from %s only: for a table that lists an input twice with different outputs the multiplicity is credited to another entry than the one the lookup generator used, and a proof whose looked-up pairs are all in the table does not verify' % (', '.join(b['n'] for b in used) or 'no component of the lookup')
             loc10 = gets[0].get('s')
